@@ -426,3 +426,94 @@ def structural_twins(repo: str, rel: str, families: tuple[str, ...] = ("invert-i
 
         per_site(pred5, rw5, "comp-to-loop")
     return out
+
+
+def param_twins(repo: str, rel: str) -> list[tuple[str, dict[str, str]]]:
+    """(description, overlay): every parameter of every *private* function / method / closure of ``rel``
+    (leading underscore, not a dunder; or nested in another function) renamed consistently, including
+    keyword arguments at its call sites.  Parameter names of private helpers are not API.
+    A parameter is skipped when a call site outside ``rel`` passes it by keyword."""
+    import copy as _copy
+    import glob as _glob
+
+    path = os.path.join(repo, rel)
+    if not os.path.exists(path):
+        return []
+    with open(path, encoding="utf-8") as fh:
+        text = fh.read()
+    base = ast.parse(text)
+    # keyword uses in other files
+    other_kw: set[tuple[str, str]] = set()
+    for fp in _glob.glob(os.path.join(repo, "src", "hypergraph", "**", "*.py"), recursive=True):
+        if os.path.abspath(fp) == os.path.abspath(path):
+            continue
+        try:
+            t = ast.parse(open(fp, encoding="utf-8").read())
+        except SyntaxError:
+            continue
+        for c in ast.walk(t):
+            if isinstance(c, ast.Call):
+                nm = c.func.id if isinstance(c.func, ast.Name) else c.func.attr if isinstance(c.func, ast.Attribute) else None
+                for k in c.keywords:
+                    if nm and k.arg:
+                        other_kw.add((nm, k.arg))
+
+    def funcs(t):
+        out = []
+
+        def rec(n, nested):
+            for c in ast.iter_child_nodes(n):
+                if isinstance(c, (ast.FunctionDef, ast.AsyncFunctionDef)):
+                    private = (c.name.startswith("_") and not (c.name.startswith("__") and c.name.endswith("__"))) or nested
+                    if private:
+                        out.append(c)
+                    rec(c, True)
+                else:
+                    rec(c, nested)
+
+        rec(t, False)
+        return out
+
+    out: list[tuple[str, dict[str, str]]] = []
+    sites = [(i, a.arg) for i, f in enumerate(funcs(base)) for a in f.args.posonlyargs + f.args.args + f.args.kwonlyargs if a.arg not in ("self", "cls")]
+    for fi, pname in sites:
+        fb = funcs(base)[fi]
+        if (fb.name, pname) in other_kw:
+            continue
+        new = pname + "_rn"
+        if any(isinstance(x, ast.Name) and x.id == new for x in ast.walk(fb)):
+            continue
+        tree = _copy.deepcopy(base)
+        f = funcs(tree)[fi]
+        for a in f.args.posonlyargs + f.args.args + f.args.kwonlyargs:
+            if a.arg == pname:
+                a.arg = new
+
+        def visit(n):
+            for c in ast.iter_child_nodes(n):
+                if isinstance(c, (ast.FunctionDef, ast.AsyncFunctionDef, ast.Lambda)):
+                    ps = {a.arg for a in c.args.posonlyargs + c.args.args + c.args.kwonlyargs}
+                    own = any(isinstance(x, ast.Name) and x.id == pname and isinstance(x.ctx, ast.Store) for x in ast.walk(c))
+                    if pname in ps or own:
+                        continue
+                if isinstance(c, ast.Name) and c.id == pname:
+                    c.id = new
+                visit(c)
+
+        visit(f)
+        # keyword arguments at call sites in this file
+        for c in ast.walk(tree):
+            if isinstance(c, ast.Call):
+                nm = c.func.id if isinstance(c.func, ast.Name) else c.func.attr if isinstance(c.func, ast.Attribute) else None
+                if nm == f.name:
+                    for k in c.keywords:
+                        if k.arg == pname:
+                            k.arg = new
+        ast.fix_missing_locations(tree)
+        try:
+            src_new = ast.unparse(tree) + "\n"
+            ast.parse(src_new)
+        except Exception:
+            continue
+        out.append((f"{rel}:{f.name}@{fb.lineno}:param:{pname}", {rel: src_new}))
+    return out
